@@ -8,7 +8,8 @@ references from the stdlib table `html.entities.html5`, which is the WHATWG tabl
 Not implemented (no tree construction stage drives the tokenizer): RCDATA/RAWTEXT/script-data/
 PLAINTEXT states, and DOCTYPE is approximated by one ("doctype", raw-text-up-to->) token.  The
 tokenizer therefore answers "what tokens does an HTML parser see in ordinary (data-state)
-content"; callers must not use raw-text element names (script, style, textarea, title, ...).
+content", i.e. with script, style, textarea, title ... tokenized like ordinary elements; a caller
+that feeds such names gets their XML-visible structure, not HTML's raw-text content model.
 
 Input: str (callers map bytes 1:1 with latin-1).  Output: list of tokens
     ("text", s)  ("start", name, [(attr, value), ...], self_closing)  ("end", name)
